@@ -69,7 +69,7 @@ PROPS = {
                         'the BuildSystemFrontend / lane queue path'],
     },
     'C06': {
-        'units': ['engine', 'engine_build', 'engine_cancel', 'engine_pool', 'engine_loop'],
+        'units': ['engine', 'engine_build', 'engine_cancel', 'engine_pool', 'engine_loop', 'engine_taskapi'],
         'design_ref': 'DESIGN.md section 4, C06',
         'claim': 'task protocol automaton on the Task stubs (start once, prior value once after start and only for the same rule definition), ready queue '
                  'receives a task exactly when its wait count reaches zero, finished tasks are queued under finishedTaskInfosMutex and the loop is notified '
@@ -79,7 +79,7 @@ PROPS = {
                  'loop body as one step: requests are taken first in first out; a request whose input is still being scanned is parked unchanged; a value request '
                  'is delivered exactly once (provideValue with the request\'s id, the input\'s key and current value, before inputs-available, only when the input is '
                  'complete in this build or its prior value was asked for), a must-follow request never; inputs-available is delivered once, to the front of the '
-                 'ready queue, with nothing outstanding; a finished task wakes every waiter in order and leaves the task table under its mutex',
+                 'ready queue, with nothing outstanding; a finished task wakes every waiter in order and leaves the task table under its mutex; a request made through TaskInterface is queued exactly once under the queue\'s mutex and counted in the task\'s wait count, reserved ids are refused, must-follow is an order-only request under the reserved id, a discovered dependency is accepted only while computing',
         'not_decided': ['that all completion orders give the same values (a whole-build, all-schedules statement)', 'data-race freedom in general, deadlock',
                         'the scan-request phase of executeTasks as a loop (its step is proved in unit engine); composition of the steps over a whole build'],
     },
